@@ -642,7 +642,7 @@ class Interp:
                 return self.lift(f(*args, **kw))
             ok = self.native_symbolic_ok.get(getattr(f, '__qualname__', getattr(f, '__name__', repr(f))))
             bound_self = getattr(f, '__self__', None)
-            if bound_self is self.np or (bound_self is self) or ok or getattr(f, '_pysym_model', False) or f in (tuple, list, enumerate, zip, reversed, len, isinstance, type, id):
+            if bound_self is self.np or (bound_self is self) or ok or getattr(f, '_pysym_model', False) or getattr(bound_self, '_pysym_model', False) or f in (tuple, list, enumerate, zip, reversed, len, isinstance, type, id):
                 return f(*args, **kw)
             if isinstance(bound_self, (list, dict)) or (isinstance(bound_self, np.ndarray) and bound_self.dtype == object):
                 return f(*args, **kw)
